@@ -181,7 +181,7 @@ def run(prop, tier=None, replay=None):
             else:
                 jobs.append({"std": std, "ic": ic, "src": src})
         cases.append({"id": i, "fam": fam, "src": src, "prov": prov, "jobs": jobs})
-    res = pmap(work, [{"id": c["id"], "jobs": c["jobs"]} for c in cases], timeout=CASE_TIMEOUT_S)
+    res = pmap(work, [{"id": c["id"], "jobs": c["jobs"]} for c in cases], timeout=CASE_TIMEOUT_S, batch=16)
     chk.phase("observe")
     D = session.Digests()
     events = []
